@@ -9,7 +9,7 @@ MEAS_FILTERS = [None, None, "m1", "m2", "m3", ""]
 TAG_KEYS = ["a", "b", "k", "bad"]
 TAG_VALS = ["x", "y", "ab", "A", "", None, "b", "abz", "li\nne", "a\r\nb,\"q\"", "x"]
 FIELD_KEYS = ["a", "b"]
-FIELD_VALS = [None, 0, 1, 2, -1, 1.5, 10, float("inf"), 2.0, 0.1]
+FIELD_VALS = [None, 0, 1, 2, -1, 1.5, 10, float("inf"), 2.0, 0.1, -2]
 
 
 class Gen:
@@ -300,7 +300,7 @@ class Gen:
         r = self.r
         obs = [("index_valid",), ("iter",)]
         k = r.choice(["ooo_batch", "carriers", "bad_batch", "stale_handle", "torn_update", "handle_times", "linebreaks", "zones",
-                      "remove_first", "ooo_then_remove", "nested_not", "reset_then_time", "getter_memo", "handle_sorted", "odd_strings", "shared_maps"])
+                      "remove_first", "ooo_then_remove", "nested_not", "reset_then_time", "getter_memo", "handle_sorted", "odd_strings", "shared_maps", "hash_twins"])
         pref = self.profile.get("scenario_pref")
         if pref and r.random() < 0.5:
             k = r.choice(pref)
@@ -406,7 +406,11 @@ class Gen:
             t = max(p["time"] for p in pts)
             batch = [self.point(t + (i + 1) * SEC) for i in range(r.choice([2, 3]))]
             batch.insert(r.randrange(1, len(batch) + 1), None)
+            srt = r.random() < 0.5
+            same = r.choice([("noop", "tags"), ("S", "time", [], ("cmp", ">=", ("t", T0 - 100 * SEC))), ("S", "time", [], ("cmp", ">", ("t", t)))])
+            ops += [("search", same, None, srt), ("count", same, None)]                       # asked before ...
             ops += [r.choice([("insert", batch, None, "multiple"), ("handle", "m1", ("insert", batch))])] + obs
+            ops += [("search", same, None, srt), ("count", same, None)]                       # ... and, word for word, after the aborted batch
             ops += [("count", ("noop", "tags"), None), ("len",), ("get_timestamps", None), ("search", self.simple("tags"), None, False)]
             ops += [("insert", [self.point(t + 10 * SEC)], None)] + obs + [("search", self.simple(), None, False), ("count", self.simple(), None)]
         elif k == "stale_handle":
@@ -443,6 +447,24 @@ class Gen:
             for p in pts:
                 p["tags"]["nl"] = r.choice(["a\nb", "c\r\nd", "e\rf"])
             ops += [("insert", pts, None, "multiple"), ("insert", [self.point(T0 - 9 * SEC)], None)] + obs + [("len",), ("all", False), ("len",)]
+        elif k == "hash_twins":
+            # comparison values whose Python hashes coincide (-1 / -2, 0 / 0.0 / False-like, 1 / 1.0): the same shape of query asked with one
+            # value and then with the other, between two writes, on both read paths
+            pts = self.points_batch(r.choice([4, 6]), in_order=True)
+            for i, p in enumerate(pts):
+                p["fields"]["level"] = [-1, -2, 0, 1, -1, -2][i % 6]
+                p["tags"]["lv"] = ["-1", "-2", "0"][i % 3]
+            ops += [("insert", pts, None, "multiple")] + obs
+            fq = lambda c, v: ("S", "fields", [("k", "level")], ("cmp", c, ("n", v)))
+            for c in r.sample(["==", "<", "<=", ">", "!=", ">="], 3):
+                a, b = r.choice([(-1, -2), (-2, -1), (1, 1.0), (0, 0.0)])
+                kind = r.choice(["search", "count", "select"])
+                for v in (a, b):
+                    ops.append(("search", fq(c, v), None, False) if kind == "search" else ("count", fq(c, v), r.choice([None, "m1"])) if kind == "count"
+                               else ("select", ["fields.level", "time"], fq(c, v), None))
+            ops += [("search", ("and", fq("==", -1), ("S", "tags", [("k", "lv")], ("exists",))), None, False),
+                    ("search", ("and", fq("==", -2), ("S", "tags", [("k", "lv")], ("exists",))), None, False),
+                    ("count", ("not", fq("==", -1)), None), ("count", ("not", fq("==", -2)), None)]
         elif k == "shared_maps":
             # a batch of points built from ONE tags mapping and ONE fields mapping (the harness hands equal mappings of a batch over as one
             # object): updates of a subset, of all, unsets, and an update that fails part-way must treat every point as having its own
@@ -462,7 +484,7 @@ class Gen:
             # keys spelled like the key prefixes of the file format, strings with leading / trailing blanks and quote characters; written in both
             # prefix styles, read back after a reopen, after a rewrite (update) and after another reopen
             pts = self.points_batch(r.choice([3, 4]), in_order=True)
-            okeys = ["t_zone", "f_out", "_tag_a", "_field_b", "t", "f", "tt", "ft", "t_", "f_", " k", "k ", "_", "t_t_x", "_tag_t_y"]
+            okeys = ["t_zone", "f_out", "_tag_a", "_field_b", "t", "f", "tt", "ft", "t_", "f_", " k", "k ", "_", "t_t_x", "_tag_t_y", "cle\u0301", "\u212b"]
             ovals = [" x", "x ", " ", "  a  b ", "\tq", "'", "''", '"', "#c", " _none", "_none ", "t_v", "f_v", "=1", "\\"]
             for p in pts:
                 for key in r.sample(okeys, r.choice([1, 2, 3])):
